@@ -211,6 +211,81 @@ Proof.
       inversion IH; subst; f_equal; eauto.
 Qed.
 
+(* ---- real / complex counterparts ---- *)
+(* facts about the REGENERATED odl.util tables (finite check over the dtype enumeration) *)
+Lemma c2r_real d d' : c2r d = Some d' -> is_real_dt d' = true.
+Proof. destruct d; cbn; intro E; inversion E; reflexivity. Qed.
+Lemma r2c_complex d d' : r2c d = Some d' -> is_complex_floating d' = true.
+Proof. destruct d; cbn; intro E; inversion E; reflexivity. Qed.
+Lemma real_complex_disjoint d : is_real_dt d && is_complex_floating d = false.
+Proof. destruct d; reflexivity. Qed.
+Lemma numeric_real_or_complex d : is_numeric d = true -> is_real_dt d || is_complex_floating d = true.
+Proof. destruct d; cbn; congruence. Qed.
+
+Lemma tsp_real_space_Ok t t' : tsp_real_space dv t = Ok t' ->
+  ts_shape t' = ts_shape t /\ is_real_dt (ts_dtype t') = true.
+Proof.
+  unfold tsp_real_space, tsp_real_dtype. destruct (negb (is_numeric (ts_dtype t))); [discriminate|].
+  destruct (is_real_dt (ts_dtype t)) eqn:Er.
+  - unfold tsp_astype. replace (dtype_eqb (ts_dtype t) (ts_dtype t)) with true by (destruct (ts_dtype t); reflexivity).
+    intro E; inversion E; subst. auto.
+  - destruct (c2r (ts_dtype t)) as [d|] eqn:Ec; [|discriminate]. intro E.
+    unfold tsp_astype in E. destruct (dtype_eqb d (ts_dtype t)) eqn:Ed.
+    + inversion E; subst. apply dtype_eqb_true in Ed. subst. apply c2r_real in Ec. split; auto.
+    + apply mk_tsp_Ok in E as [E1 [E2 _]]. split; [assumption|]. rewrite E2. eapply c2r_real, Ec.
+Qed.
+
+Lemma tsp_complex_space_Ok t t' : tsp_complex_space dv t = Ok t' ->
+  ts_shape t' = ts_shape t /\ is_complex_floating (ts_dtype t') = true.
+Proof.
+  unfold tsp_complex_space, tsp_complex_dtype. destruct (negb (is_numeric (ts_dtype t))) eqn:En; [discriminate|].
+  apply negb_false_iff, numeric_real_or_complex in En.
+  destruct (is_real_dt (ts_dtype t)) eqn:Er.
+  - destruct (r2c (ts_dtype t)) as [d|] eqn:Ec; [|discriminate]. intro E.
+    unfold tsp_astype in E. destruct (dtype_eqb d (ts_dtype t)) eqn:Ed.
+    + inversion E; subst. apply dtype_eqb_true in Ed. subst. apply r2c_complex in Ec. split; auto.
+    + apply mk_tsp_Ok in E as [E1 [E2 _]]. split; [assumption|]. rewrite E2. eapply r2c_complex, Ec.
+  - cbn in En. unfold tsp_astype.
+    replace (dtype_eqb (ts_dtype t) (ts_dtype t)) with true by (destruct (ts_dtype t); reflexivity).
+    intro E; inversion E; subst. auto.
+Qed.
+
+Theorem oreal_space_spec : forall (a : obj T) b, oreal_space dv a = Ok b ->
+  skel_of b = skel_of a /\ Forall (fun t => is_real_dt (ts_dtype t) = true) (leaves b).
+Proof.
+  induction a as [| |n| | | |l IH|l IH|l IH|els|e|g|t|p t|l w f IH] using obj_ind'; intros b E; try discriminate.
+  - cbn in E. apply rmap_Ok in E as [t' [E ->]]. apply tsp_real_space_Ok in E as [E1 E2]. cbn. split; [congruence | repeat constructor; auto].
+  - cbn [oreal_space] in E. destruct (negb (is_numeric (ts_dtype t))) eqn:En; [discriminate|].
+    assert (Ht : exists t', tsp_real_space dv t = Ok t' /\ b = ODiscr p t').
+    { unfold tsp_real_space. rewrite En. destruct (tsp_real_dtype t) as [d|]; [|discriminate].
+      destruct (dtype_eqb d (ts_dtype t)) eqn:Ed.
+      - inversion E; subst. exists t. split; [|reflexivity]. unfold tsp_astype. rewrite Ed. reflexivity.
+      - apply rmap_Ok in E as [t' [E ->]]. eauto. }
+    destruct Ht as [t' [Et ->]]. apply tsp_real_space_Ok in Et as [E1 E2]. cbn. split; [congruence | repeat constructor; auto].
+  - cbn [oreal_space] in E. apply rbind_Ok in E as [l' [El E]]. apply mk_prod_Ok in E as [f' ->]. apply rall_Ok in El.
+    cbn [skel_of leaves]. clear - IH El. induction El as [|x y l l' Exy El IHl]; cbn; [split; [reflexivity | constructor]|].
+    inversion IH as [|? ? Hx Hl]; subst. destruct (Hx _ Exy) as [S1 L1]. destruct (IHl Hl) as [S2 L2].
+    split; [inversion S2; congruence | apply Forall_app; split; assumption].
+Qed.
+
+Theorem ocomplex_space_spec : forall (a : obj T) b, ocomplex_space dv a = Ok b ->
+  skel_of b = skel_of a /\ Forall (fun t => is_complex_floating (ts_dtype t) = true) (leaves b).
+Proof.
+  induction a as [| |n| | | |l IH|l IH|l IH|els|e|g|t|p t|l w f IH] using obj_ind'; intros b E; try discriminate.
+  - cbn in E. apply rmap_Ok in E as [t' [E ->]]. apply tsp_complex_space_Ok in E as [E1 E2]. cbn. split; [congruence | repeat constructor; auto].
+  - cbn [ocomplex_space] in E. destruct (negb (is_numeric (ts_dtype t))) eqn:En; [discriminate|].
+    assert (Ht : exists t', tsp_complex_space dv t = Ok t' /\ b = ODiscr p t').
+    { unfold tsp_complex_space. rewrite En. destruct (tsp_complex_dtype t) as [d|]; [|discriminate].
+      destruct (dtype_eqb d (ts_dtype t)) eqn:Ed.
+      - inversion E; subst. exists t. split; [|reflexivity]. unfold tsp_astype. rewrite Ed. reflexivity.
+      - apply rmap_Ok in E as [t' [E ->]]. eauto. }
+    destruct Ht as [t' [Et ->]]. apply tsp_complex_space_Ok in Et as [E1 E2]. cbn. split; [congruence | repeat constructor; auto].
+  - cbn [ocomplex_space] in E. apply rbind_Ok in E as [l' [El E]]. apply mk_prod_Ok in E as [f' ->]. apply rall_Ok in El.
+    cbn [skel_of leaves]. clear - IH El. induction El as [|x y l l' Exy El IHl]; cbn; [split; [reflexivity | constructor]|].
+    inversion IH as [|? ? Hx Hl]; subst. destruct (Hx _ Exy) as [S1 L1]. destruct (IHl Hl) as [S2 L2].
+    split; [inversion S2; congruence | apply Forall_app; split; assumption].
+Qed.
+
 End DP.
 
 (* ------------------------------------------------------------ Python slices *)
